@@ -125,7 +125,8 @@ def check_config(cfg, name, break_transparency=False):
     doms = sorted({d for d, _ in wps} | {d for d, _ in rps if d != "comb"})
     cds = {}
     for dn in doms:
-        cds[dn] = ClockDomain(dn, reset_less=True)
+        # a resettable domain: the domain reset (left symbolic) must not affect rows or read registers
+        cds[dn] = ClockDomain(dn)
         m.domains += cds[dn]
     m.submodules.mem = mem
     d = Design(m)
